@@ -74,6 +74,10 @@ fn extended_alphabet(thorough: bool) -> Vec<V> {
     v.push(V::map(&[("a", V::s("x"))]));
     v.push(V::Map(vec![(K::U64(1), V::s("x"))]));
     v.push(V::Map(vec![(K::I128(1), V::s("y"))]));
+    // more than one integer that only u128 can hold (two such values must still differ)
+    v.push(V::U128(1u128 << 127));
+    v.push(V::U128(u128::MAX - 1));
+    v.push(V::F64(3.402823669209385e38)); // 2^128 as a double
     if thorough {
         for i in [-3i64, 4, 5, 10, i64::MAX] {
             v.push(V::I64(i));
@@ -84,7 +88,7 @@ fn extended_alphabet(thorough: bool) -> Vec<V> {
         for i in [(1i128 << 53) + 1, -(1i128 << 64), i128::MAX - 1] {
             v.push(V::I128(i));
         }
-        for u in [1u128 << 64, 1u128 << 127, (1u128 << 127) - 1] {
+        for u in [1u128 << 64, (1u128 << 127) + 1, (1u128 << 127) - 1] {
             v.push(V::U128(u));
         }
         for f in [
@@ -94,7 +98,6 @@ fn extended_alphabet(thorough: bool) -> Vec<V> {
             9007199254740993.0,
             1.8446744073709552e19,
             1.7014118346046923e38,
-            3.402823669209385e38,
             -1.7014118346046923e38,
             f64::MAX,
             f64::MIN_POSITIVE,
